@@ -1129,6 +1129,9 @@ class Interp:
         import sqlalchemy as sa
 
         st = sa.inspect(o)
+        # first walk: loads whatever the cascade needs (a lazy load may autoflush and turn
+        # objects marked for deletion into 'deleted' ones); second walk: judge the states
+        list(st.mapper.cascade_iterator("delete", st))
         for o_, m_, st_, d_ in st.mapper.cascade_iterator("delete", st):
             if st_._deleted or st_.session is not self.s:
                 return False
@@ -1278,6 +1281,7 @@ class Interp:
         o = self.obj(slot)
         st = sa.inspect(o)
         self.need(st.persistent and st.session is self.s and o not in self.s.deleted)
+        self.need(not SPEC[type(o).__name__]["colls"])   # leaf classes only
         self.need(not self._pending_refs(o))
         self.need(self._cascade_ok(o))
         mi = self.zoo.info(st.mapper)
@@ -1654,7 +1658,9 @@ class Gen:
         return ["merge", slot, sc, coll]
 
     def g_rowswitch(self):
-        c = self.live(["NUser", "NAddr", "Vertex", "Child", "Vehicle", "Car", "Truck", "Parent"], persistent_only=True)
+        # leaf classes only: what happens to the rows that reference a row-switched parent
+        # (nulled or silently adopted by the replacement) is not something the zoo can judge
+        c = self.live(["NAddr", "Vertex", "Child", "Vehicle", "Car", "Truck"], persistent_only=True)
         c = [s for s in c if type(self.rig.objs[s]).__name__ in self.classes]
         if not c:
             return None
